@@ -4,10 +4,15 @@ package http
 
 // Contracts for package http (hap/http), checked by /verif (govc). Comment-only file: it adds no declarations.
 
+// lastjson(): the bytes the most recent JSONEncode produced (encoding/json itself is assumed, not verified)
+//@ ghost lastjson() seq
+// WriteJSON sends the encoder's output in order (chunked at 2048 bytes): all of it unless the response writer fails, in
+// which case a prefix was sent (the write error itself is dropped by the code: `wr.Write(buf.Bytes())`)
 //@ func WriteJSON(w, r, v) (err)
 //@   requires w != nil
-//@   modifies sink(w), status(w)
+//@   modifies sink(w), status(w), lastjson
 //@   ensures old(status(w)) != 0 ==> status(w) == old(status(w))
+//@   ensures body: err == nil ==> len(sink(w)) - len(old(sink(w))) <= len(lastjson()) && sink(w) == cat(old(sink(w)), sub(lastjson(), 0, len(sink(w)) - len(old(sink(w)))))
 
 // ---- C01: Authenticate wraps a handler; the wrapper (closure Authenticate$1) calls it only for a verified session
 //@ func (srv *Server) Authenticate(next) (h)
@@ -16,8 +21,8 @@ package http
 
 //@ func (srv *Server) Authenticate$1(w, r)
 //@   requires w != nil && r != nil && srv != nil && srv.context != nil && next != nil
-//@   modifies heap, sink(w), status(w), subs, dbver, lastname, lastkey, dbhas, dbkey
-//@   ensures refused: !old(verified(sessOf(r))) ==> status(w) == ite(old(status(w)) == 0, 470, old(status(w))) && nochange(sink, status)
+//@   modifies heap, sink(w), status(w), subs, dbver, lastname, lastkey, dbhas, dbkey, lastjson
+//@   ensures refused: !old(verified(sessOf(r))) ==> status(w) == ite(old(status(w)) == 0, 470, old(status(w))) && nochange(sink, status, lastjson)
 
 // every protected path is registered with the Authenticate wrapper (precondition of ServeMux.Handle, nethttp.spec)
 //@ func (s *Server) setupEndpoints()
@@ -31,13 +36,15 @@ package http
 //@   pure
 //@   ensures fresh(s) && s.Mux != nil
 //@ func (s *Server) Port() (p)
+//@   requires s != nil
 //@   pure
 
 // ---------------------------------------------------------------- JSON helpers (encoding/json is assumed, not verified)
 //@ func JSONEncode(v) (buf, err)
 //@   trusted
-//@   pure
-//@   ensures err == nil ==> buf != nil
+//@   fresh buf
+//@   modifies lastjson
+//@   ensures buf != nil && stream(buf) == lastjson()
 //@ func JSONDecode(r, v) (err)
 //@   trusted
 //@   requires r != nil && v != nil
@@ -65,7 +72,7 @@ package http
 //@ func (srv *Server) Characteristics(w, r)
 //@   requires srvOK(srv) && w != nil && r != nil && r.Body != nil
 //@   requires verified: verified(sessOf(r))
-//@   modifies heap, callcount, sink(w), status(w), stream(r.Body), subs
+//@   modifies heap, callcount, sink(w), status(w), stream(r.Body), subs, lastjson
 //@   opaque wellTyped, finiteBounds
 //@   assert count before WriteJSON#1: len(arr) == len(strs)
 //@   assert allStatus before WriteJSON#1: err ==> forall(i, 0, len(arr), arr[i].Status != nil)
@@ -88,7 +95,7 @@ package http
 //@ func (srv *Server) Accessories(w, r)
 //@   requires srvOK(srv) && w != nil && r != nil
 //@   requires verified: verified(sessOf(r))
-//@   modifies sink(w), status(w), held(srv.mutex)
+//@   modifies sink(w), status(w), held(srv.mutex), lastjson
 
 //@ func (srv *Server) Identify(w, r)
 //@   requires srv != nil && srv.container != nil && w != nil && r != nil && forall(i, 0, len(srv.container.Accessories), srv.container.Accessories[i] != nil)
